@@ -52,6 +52,20 @@ pub trait StrGrow {
     fn write_fmt3(&mut self, a: &dyn std::fmt::Display, b: u64, c: &str) -> std::fmt::Result;
     fn reserve(&mut self, n: usize);
     fn try_reserve(&mut self, n: usize) -> Result<(), AllocError>;
+    /// `None`: the family has no such method
+    fn reserve_exact(&mut self, _n: usize, _try_: bool) -> Option<Result<(), AllocError>> {
+        None
+    }
+    /// `shrink_to_fit` (`n` = None) or `shrink_to(n)`; false: the family has no such method
+    fn shrink(&mut self, _n: Option<usize>) -> bool {
+        false
+    }
+    fn extend_zeroed(&mut self, n: usize);
+    fn try_extend_zeroed(&mut self, n: usize) -> Result<(), AllocError>;
+    fn extend_chars(&mut self, cs: &[char], by_ref: bool);
+    fn extend_strs(&mut self, ss: &[String]);
+    fn write_char(&mut self, c: char) -> std::fmt::Result;
+    fn add_assign(&mut self, s: &str);
 }
 
 macro_rules! str_core {
@@ -148,6 +162,47 @@ macro_rules! str_grow {
         fn try_reserve(&mut self, n: usize) -> Result<(), AllocError> {
             Self::try_reserve(self, n)
         }
+        fn extend_zeroed(&mut self, n: usize) {
+            Self::extend_zeroed(self, n)
+        }
+        fn try_extend_zeroed(&mut self, n: usize) -> Result<(), AllocError> {
+            Self::try_extend_zeroed(self, n)
+        }
+        fn extend_chars(&mut self, cs: &[char], by_ref: bool) {
+            if by_ref {
+                Extend::<&char>::extend(self, cs.iter())
+            } else {
+                Extend::<char>::extend(self, cs.iter().copied())
+            }
+        }
+        fn extend_strs(&mut self, ss: &[String]) {
+            Extend::<&str>::extend(self, ss.iter().map(|s| s.as_str()))
+        }
+        fn write_char(&mut self, c: char) -> std::fmt::Result {
+            std::fmt::Write::write_char(self, c)
+        }
+        fn add_assign(&mut self, s: &str) {
+            *self += s;
+        }
+    };
+    (@exact) => {
+        fn reserve_exact(&mut self, n: usize, try_: bool) -> Option<Result<(), AllocError>> {
+            Some(if try_ {
+                Self::try_reserve_exact(self, n)
+            } else {
+                Self::reserve_exact(self, n);
+                Ok(())
+            })
+        }
+    };
+    (@shrink) => {
+        fn shrink(&mut self, n: Option<usize>) -> bool {
+            match n {
+                None => Self::shrink_to_fit(self),
+                Some(n) => Self::shrink_to(self, n),
+            }
+            true
+        }
     };
 }
 
@@ -200,6 +255,8 @@ where
     S: BumpAllocatorSettings,
 {
     str_grow!();
+    str_grow!(@exact);
+    str_grow!(@shrink);
 }
 impl<'b, A, S> StrLike for MutBumpString<&'b mut BumpScope<'b, A, S>>
 where
@@ -223,6 +280,7 @@ where
     S: BumpAllocatorSettings,
 {
     str_grow!();
+    str_grow!(@exact);
 }
 
 pub const ALPHABET: [&str; 9] = ["a", "z", "\0", "é", "ß", "€", "한", "😀", "\u{301}"];
@@ -308,15 +366,22 @@ pub fn step(v: &mut dyn StrLike, model: &mut String, ctx: &mut VCtx) {
     let has_grow = v.grow().is_some();
     let fixed = v.is_fixed();
     let cap0 = v.capacity();
-    let mut w = [6u32, 8, 6, 2, 5, 8, 0, 0, 0, 0, 0, 0, 0, 0, 0, 0, 0, 0, 0];
+    let mut w = [0u32; 27];
+    w[..6].copy_from_slice(&[6, 8, 6, 2, 5, 8]);
     if has_grow {
         for (i, x) in [(6, 8), (7, 3), (8, 8), (9, 3), (10, 8), (11, 3), (12, 8), (13, 3), (14, 8), (15, 3), (16, 5), (17, 3), (18, 3)] {
+            w[i] = x;
+        }
+        for (i, x) in [(19, 3), (20, 2), (21, 2), (22, 3), (23, 3), (24, 3), (25, 2), (26, 2)] {
             w[i] = x;
         }
     }
     let op = ctx.rng.weighted(&w);
     let mut added = 0usize;
     let mut idx_arg: Option<usize> = None;
+    let mut reserve_n: Option<usize> = None;
+    let mut partial_ok: Option<String> = None;
+    let mut is_try2 = false;
     let before = model.clone();
     let (real, modl): (Real, Result<String, ()>) = match op {
         0 => {
@@ -530,6 +595,129 @@ pub fn step(v: &mut dyn StrLike, model: &mut String, ctx: &mut VCtx) {
                 }),
             )
         }
+        19 | 20 => {
+            let n = match ctx.rng.below(5) {
+                0 => 0,
+                1 | 2 => ctx.rng.range(1, 40),
+                3 => ctx.rng.range(40, 600),
+                _ => usize::MAX - ctx.rng.range(0, 3),
+            };
+            let try_ = ctx.rng.bool();
+            is_try2 = try_;
+            reserve_n = Some(n);
+            ctx.begin(format!("{}reserve{} {n}", if try_ { "try_" } else { "" }, if op == 20 { "_exact" } else { "" }));
+            let g = v.grow().unwrap();
+            (
+                real_do(|| {
+                    let exact = if op == 20 { g.reserve_exact(n, try_) } else { None };
+                    match exact {
+                        Some(r) => r.map(|_| String::new()),
+                        None if try_ => g.try_reserve(n).map(|_| String::new()),
+                        None => {
+                            g.reserve(n);
+                            Ok(String::new())
+                        }
+                    }
+                }),
+                // std panics with "capacity overflow" for anything above isize::MAX and would really allocate otherwise
+                if len.checked_add(n).map_or(true, |t| t > isize::MAX as usize) { Err(()) } else { Ok(String::new()) },
+            )
+        }
+        21 => {
+            let n = if ctx.rng.bool() { None } else { Some(ctx.rng.range(0, cap0.min(len + 100) + 2)) };
+            ctx.begin(match n {
+                None => "shrink_to_fit".into(),
+                Some(n) => format!("shrink_to {n}"),
+            });
+            let g = v.grow().unwrap();
+            let r = real_do(|| {
+                g.shrink(n);
+                Ok(String::new())
+            });
+            if let (Real::Ok(_), Some(n)) = (&r, n) {
+                let c = v.capacity();
+                if c < n.min(cap0) || c < len {
+                    ctx.viol("C09", format!("shrink_to_went_below_floor:{}", v.family()), format!("shrink_to {n}: capacity {cap0} -> {c} (len {len})"));
+                }
+            }
+            (r, Ok(String::new()))
+        }
+        22 => {
+            let n = ctx.rng.range(0, 10);
+            let try_ = ctx.rng.bool();
+            is_try2 = try_;
+            added = n;
+            ctx.begin(format!("{}extend_zeroed {n}", if try_ { "try_" } else { "" }));
+            let g = v.grow().unwrap();
+            (
+                real_do(|| {
+                    if try_ {
+                        g.try_extend_zeroed(n).map(|_| String::new())
+                    } else {
+                        g.extend_zeroed(n);
+                        Ok(String::new())
+                    }
+                }),
+                model_do(|| {
+                    model.extend(std::iter::repeat('\0').take(n));
+                    String::new()
+                }),
+            )
+        }
+        23 | 24 => {
+            let n = ctx.rng.range(0, 8);
+            let pieces: Vec<String> = (0..n).map(|_| if op == 23 { ALPHABET[ctx.rng.below(ALPHABET.len())].to_string() } else { text(&mut ctx.rng, 3) }).collect();
+            let all: String = pieces.concat();
+            added = all.len();
+            partial_ok = Some(all.clone());
+            let by_ref = ctx.rng.bool();
+            ctx.begin(format!("Extend<{}> {pieces:?}", if op == 24 { "&str" } else if by_ref { "&char" } else { "char" }));
+            let g = v.grow().unwrap();
+            (
+                real_do(|| {
+                    if op == 23 {
+                        let cs: Vec<char> = pieces.iter().map(|p| p.chars().next().unwrap()).collect();
+                        g.extend_chars(&cs, by_ref);
+                    } else {
+                        g.extend_strs(&pieces);
+                    }
+                    Ok(String::new())
+                }),
+                model_do(|| {
+                    model.push_str(&all);
+                    String::new()
+                }),
+            )
+        }
+        25 => {
+            let c = ALPHABET[ctx.rng.below(ALPHABET.len())].chars().next().unwrap();
+            added = c.len_utf8();
+            ctx.begin(format!("write_char {c:?}"));
+            let g = v.grow().unwrap();
+            (
+                real_do(|| Ok(format!("{:?}", g.write_char(c).is_ok()))),
+                model_do(|| {
+                    model.push(c);
+                    "true".to_string()
+                }),
+            )
+        }
+        26 => {
+            let s = text(&mut ctx.rng, 8);
+            added = s.len();
+            ctx.begin(format!("+= {s:?}"));
+            let g = v.grow().unwrap();
+            (
+                real_do(|| {
+                    g.add_assign(&s);
+                    Ok(String::new())
+                }),
+                model_do(|| {
+                    *model += &s;
+                    String::new()
+                }),
+            )
+        }
         _ => {
             let kind = ctx.rng.below(3) as u8;
             let t = text(&mut ctx.rng, 5);
@@ -556,8 +744,10 @@ pub fn step(v: &mut dyn StrLike, model: &mut String, ctx: &mut VCtx) {
     let refused = ctx.refused();
     // the model has already been advanced: a fixed string is full when the result would not fit
     let _ = added;
-    let full = fixed && modl.is_ok() && model.len() > cap0;
-    let is_try = matches!(op, 7 | 9 | 11 | 13 | 15 | 17);
+    let full = fixed && modl.is_ok() && (model.len() > cap0 || reserve_n.map_or(false, |n| len.saturating_add(n) > cap0));
+    let is_try = matches!(op, 7 | 9 | 11 | 13 | 15 | 17) || is_try2;
+    let is_fmt = op == 18 || op == 25;
+    let huge = reserve_n.map_or(false, |n| n > isize::MAX as usize / 2);
     let mut resync = false;
     match (real, modl) {
         (Real::Injected, _) => {
@@ -565,14 +755,14 @@ pub fn step(v: &mut dyn StrLike, model: &mut String, ctx: &mut VCtx) {
             resync = true;
         }
         (Real::Ok(r), Ok(m)) => {
-            if refused && op == 18 {
+            if refused && is_fmt {
                 // fmt::Write can only report a formatting error; what was written before stays
                 if r != "false" {
                     let tail: Vec<String> = ctx.mon.as_ref().unwrap().borrow().log.iter().rev().take(4).map(|e| format!("{e:?}")).collect();
                     ctx.viol("C07", format!("ok_after_refusal:{}", v.family()), format!("{} :: {}", ctx.desc, tail.join(" | ")));
                 }
                 resync = true;
-            } else if full && op == 18 {
+            } else if full && is_fmt {
                 // a full fixed string reports a formatting error and keeps what fitted
                 if r != "false" {
                     ctx.viol("C09", "fixed_string_accepted_more_than_capacity".into(), format!("write! {len}+.. > {cap0}"));
@@ -581,10 +771,15 @@ pub fn step(v: &mut dyn StrLike, model: &mut String, ctx: &mut VCtx) {
             } else if r != m {
                 ctx.viol("C09", format!("returned_value_differs:{}:{}", v.family(), opname(&ctx.desc)), format!("real {r:?} model {m:?}"));
             }
-            if full && op != 18 {
+            if full && !is_fmt {
                 ctx.viol("C09", "fixed_string_accepted_more_than_capacity".into(), format!("{len}+{added} > {cap0}"));
             }
-            if refused && added > 0 && op != 18 {
+            if let (Some(n), false) = (reserve_n, fixed) {
+                if v.capacity() < len.saturating_add(n) {
+                    ctx.viol("C09", format!("reserve_promise_not_kept:{}", v.family()), format!("len {len} + {n} > capacity {}", v.capacity()));
+                }
+            }
+            if refused && added > 0 && !is_fmt {
                 ctx.viol("C07", format!("ok_after_refusal:{}", v.family()), ctx.desc.clone());
             }
         }
@@ -604,7 +799,7 @@ pub fn step(v: &mut dyn StrLike, model: &mut String, ctx: &mut VCtx) {
             resync = true;
         }
         (Real::Err, _) => {
-            if !(full || refused) {
+            if !(full || refused || huge) {
                 ctx.viol("C07", format!("try_method_failed_without_cause:{}:{}", v.family(), opname(&ctx.desc)), ctx.desc.clone());
             }
             if v.as_str() != before {
@@ -616,7 +811,8 @@ pub fn step(v: &mut dyn StrLike, model: &mut String, ctx: &mut VCtx) {
             if is_try {
                 ctx.viol("C07", format!("try_method_panicked:{}:{}", v.family(), opname(&ctx.desc)), "allocation-error panic".into());
             }
-            if v.as_str() != before && op != 18 {
+            let partial = partial_ok.as_ref().map_or(false, |all| v.as_str().starts_with(before.as_str()) && all.starts_with(&v.as_str()[before.len()..]));
+            if v.as_str() != before && !is_fmt && !partial {
                 ctx.viol("C07", format!("failed_operation_changed_collection:{}:{}", v.family(), opname(&ctx.desc)), format!("before {before:?} after {:?}", v.as_str()));
             }
             resync = true;
@@ -791,9 +987,46 @@ where
             }
         }
         2 | 3 => {
-            ctx.begin(format!("create BumpString {init:?}"));
             let s = bump.as_scope();
-            let Ok(mut v) = BumpString::try_from_str_in(&init, s) else { return };
+            let ctor = ctx.rng.below(5);
+            ctx.begin(format!("create BumpString {init:?} via {}", ["try_from_str_in", "from_str_in", "with_capacity_in + push_str", "new_in + push_str", "try_with_capacity_in + push_str"][ctor]));
+            let r = guarded(|| -> Result<BumpString<&BumpScope<A, S>>, AllocError> {
+                Ok(match ctor {
+                    0 => BumpString::try_from_str_in(&init, s)?,
+                    1 => BumpString::from_str_in(&init, s),
+                    2 => {
+                        let mut v = BumpString::with_capacity_in(init.len(), s);
+                        if v.capacity() < init.len() {
+                            panic!("with_capacity_in({}) gave capacity {}", init.len(), v.capacity());
+                        }
+                        v.push_str(&init);
+                        v
+                    }
+                    3 => {
+                        let mut v = BumpString::new_in(s);
+                        v.push_str(&init);
+                        v
+                    }
+                    _ => {
+                        let mut v = BumpString::try_with_capacity_in(init.len() + 3, s)?;
+                        v.try_push_str(&init)?;
+                        v
+                    }
+                })
+            });
+            let mut v = match r {
+                Ok(Ok(v)) => v,
+                Ok(Err(_)) => return,
+                Err(pl) => {
+                    if classify(&pl) != PanicKind::AllocError {
+                        ctx.viol("C09", "constructor_panicked:BumpString".into(), format!("{:?}", classify(&pl)));
+                    }
+                    return;
+                }
+            };
+            if v.as_str() != init {
+                ctx.viol("C09", "constructed_contents_differ:BumpString".into(), format!("{:?} vs {init:?}", v.as_str()));
+            }
             run_ops(&mut v, &mut model, ctx, p.ops);
             for _ in 0..2 {
                 let len = model.len();
@@ -871,6 +1104,55 @@ where
                     Err(pl) => ctx.viol("C09", "from_utf16_lossy_panicked".into(), format!("{:?}", classify(&pl))),
                 }
             }
+            // the panicking forms of the decoding constructors
+            for _ in 0..2 {
+                let bytes = random_bytes(&mut ctx.rng);
+                let u = random_u16s(&mut ctx.rng);
+                ctx.begin(format!("BumpString::from_utf8_lossy_in {bytes:x?}"));
+                let r = guarded(|| Ok(BumpString::from_utf8_lossy_in(&bytes, s).as_str().to_string()));
+                decode_check(ctx, "BumpString::from_utf8_lossy_in", r, String::from_utf8_lossy(&bytes).into_owned(), false);
+                ctx.begin(format!("BumpString::from_utf16_in {u:x?}"));
+                let inv = || "<invalid utf-16>".to_string();
+                let r = guarded(|| Ok(BumpString::from_utf16_in(&u, s).map_or_else(|_| inv(), |x| x.as_str().to_string())));
+                decode_check(ctx, "BumpString::from_utf16_in", r, String::from_utf16(&u).unwrap_or_else(|_| inv()), false);
+                ctx.begin(format!("BumpString::from_utf16_lossy_in {u:x?}"));
+                let r = guarded(|| Ok(BumpString::from_utf16_lossy_in(&u, s).as_str().to_string()));
+                decode_check(ctx, "BumpString::from_utf16_lossy_in", r, String::from_utf16_lossy(&u), false);
+            }
+            // byte-level conversions keep the text
+            {
+                let t = text(&mut ctx.rng, 8);
+                ctx.begin(format!("BumpString::into_bytes / BumpBox<str>::into_boxed_bytes / FixedBumpString::into_bytes {t:?}"));
+                let r = guarded(|| -> Result<(), AllocError> {
+                    let bytes = BumpString::try_from_str_in(&t, s)?.into_bytes();
+                    assert_eq!(&*bytes, t.as_bytes(), "BumpString::into_bytes");
+                    let back = match BumpString::from_utf8(bytes) {
+                        Ok(b) => b,
+                        Err(_) => panic!("from_utf8 rejected valid UTF-8"),
+                    };
+                    let fixed = back.into_fixed_string();
+                    assert_eq!(fixed.as_str(), t, "into_fixed_string");
+                    let fb = fixed.into_bytes();
+                    assert_eq!(&*fb, t.as_bytes(), "FixedBumpString::into_bytes");
+                    let fs = match FixedBumpString::from_utf8(fb) {
+                        Ok(b) => b,
+                        Err(_) => panic!("FixedBumpString::from_utf8 rejected valid UTF-8"),
+                    };
+                    let boxed = fs.into_boxed_str();
+                    assert_eq!(&*boxed, t, "into_boxed_str");
+                    let bb = boxed.into_boxed_bytes();
+                    assert_eq!(&*bb, t.as_bytes(), "into_boxed_bytes");
+                    match BumpBox::<str>::from_utf8(bb) {
+                        Ok(b) => assert_eq!(&*b, t, "BumpBox<str>::from_utf8"),
+                        Err(_) => panic!("BumpBox<str>::from_utf8 rejected valid UTF-8"),
+                    }
+                    Ok(())
+                });
+                if let Err(pl) = r {
+                    ctx.viol("C09", "byte_conversion_round_trip".into(), format!("{:?}", classify(&pl)));
+                }
+                ctx.ev("conversion");
+            }
             // C-string constructors on the arena
             let t = text(&mut ctx.rng, 10);
             ctx.begin(format!("alloc_cstr_from_str / alloc_cstr_fmt {t:?}"));
@@ -902,9 +1184,72 @@ where
             }
         }
         _ => {
-            ctx.begin(format!("create MutBumpString {init:?}"));
             let s = bump.as_mut_scope();
-            let Ok(mut v) = MutBumpString::try_from_str_in(&init, s) else { return };
+            // decoding constructors of the exclusive-borrow string, panicking and try_ forms
+            for _ in 0..2 {
+                let bytes = random_bytes(&mut ctx.rng);
+                let u = random_u16s(&mut ctx.rng);
+                let try_ = ctx.rng.bool();
+                let t = if try_ { "try_" } else { "" };
+                ctx.begin(format!("MutBumpString::{t}from_utf8_lossy_in {bytes:x?}"));
+                let r = guarded(|| if try_ { MutBumpString::try_from_utf8_lossy_in(&bytes, &mut *s).map(|x| x.as_str().to_string()) } else { Ok(MutBumpString::from_utf8_lossy_in(&bytes, &mut *s).as_str().to_string()) });
+                decode_check(ctx, "MutBumpString::from_utf8_lossy_in", r, String::from_utf8_lossy(&bytes).into_owned(), try_);
+                ctx.begin(format!("MutBumpString::{t}from_utf16_in {u:x?}"));
+                let inv = || "<invalid utf-16>".to_string();
+                let r = guarded(|| {
+                    if try_ {
+                        MutBumpString::try_from_utf16_in(&u, &mut *s).map(|r| r.map_or_else(|_| inv(), |x| x.as_str().to_string()))
+                    } else {
+                        Ok(MutBumpString::from_utf16_in(&u, &mut *s).map_or_else(|_| inv(), |x| x.as_str().to_string()))
+                    }
+                });
+                decode_check(ctx, "MutBumpString::from_utf16_in", r, String::from_utf16(&u).unwrap_or_else(|_| inv()), try_);
+                ctx.begin(format!("MutBumpString::{t}from_utf16_lossy_in {u:x?}"));
+                let r = guarded(|| if try_ { MutBumpString::try_from_utf16_lossy_in(&u, &mut *s).map(|x| x.as_str().to_string()) } else { Ok(MutBumpString::from_utf16_lossy_in(&u, &mut *s).as_str().to_string()) });
+                decode_check(ctx, "MutBumpString::from_utf16_lossy_in", r, String::from_utf16_lossy(&u), try_);
+            }
+            let ctor = ctx.rng.below(5);
+            ctx.begin(format!("create MutBumpString {init:?} via {}", ["try_from_str_in", "from_str_in", "with_capacity_in + push_str", "new_in + push_str", "from_utf8(MutBumpVec<u8>)"][ctor]));
+            let r = guarded(|| -> Result<MutBumpString<&mut BumpScope<A, S>>, AllocError> {
+                Ok(match ctor {
+                    0 => MutBumpString::try_from_str_in(&init, s)?,
+                    1 => MutBumpString::from_str_in(&init, s),
+                    2 => {
+                        let mut v = MutBumpString::with_capacity_in(init.len(), s);
+                        if v.capacity() < init.len() {
+                            panic!("with_capacity_in({}) gave capacity {}", init.len(), v.capacity());
+                        }
+                        v.push_str(&init);
+                        v
+                    }
+                    3 => {
+                        let mut v = MutBumpString::new_in(s);
+                        v.push_str(&init);
+                        v
+                    }
+                    _ => {
+                        let mut bv = bump_scope::MutBumpVec::try_with_capacity_in(init.len(), s)?;
+                        bv.try_extend_from_slice_copy(init.as_bytes())?;
+                        match MutBumpString::from_utf8(bv) {
+                            Ok(v) => v,
+                            Err(_) => panic!("from_utf8 rejected valid UTF-8"),
+                        }
+                    }
+                })
+            });
+            let mut v = match r {
+                Ok(Ok(v)) => v,
+                Ok(Err(_)) => return,
+                Err(pl) => {
+                    if classify(&pl) != PanicKind::AllocError {
+                        ctx.viol("C09", "constructor_panicked:MutBumpString".into(), format!("{:?}", classify(&pl)));
+                    }
+                    return;
+                }
+            };
+            if v.as_str() != init {
+                ctx.viol("C09", "constructed_contents_differ:MutBumpString".into(), format!("{:?} vs {init:?}", v.as_str()));
+            }
             run_ops(&mut v, &mut model, ctx, p.ops);
             if ctx.rng.bool() {
                 ctx.begin("MutBumpString::into_boxed_str".into());
@@ -923,6 +1268,32 @@ where
     }
     ctx.begin("drop arena".into());
     drop(bump);
+}
+
+/// Result of a decoding constructor against the std result; a refusal is an Err of the try_ form or an
+/// allocation-error unwind of the panicking form, nothing else.
+fn decode_check(ctx: &mut VCtx, what: &str, r: Result<Result<String, AllocError>, Box<dyn std::any::Any + Send>>, expect: String, try_: bool) {
+    match r {
+        Ok(Ok(x)) => {
+            if x != expect {
+                ctx.viol("C09", format!("decoded_text_differs:{what}"), format!("{x:?} vs {expect:?}"));
+            }
+            if x.contains('\u{FFFD}') {
+                ctx.ev("lossy_replaced");
+            }
+        }
+        Ok(Err(_)) => {
+            if !ctx.refused() {
+                ctx.viol("C07", format!("try_method_failed_without_cause:{what}"), ctx.desc.clone());
+            }
+        }
+        Err(pl) => {
+            let k = classify(&pl);
+            if try_ || k != PanicKind::AllocError || !ctx.refused() {
+                ctx.viol(if try_ { "C07" } else { "C09" }, format!("decoding_constructor_panicked:{what}"), format!("{k:?}"));
+            }
+        }
+    }
 }
 
 fn check_cstr(ctx: &mut VCtx, got: &[u8], text: &str, what: &str) {
